@@ -151,16 +151,274 @@ def trial_functions(facts):
     return memo(facts, "trial_functions", build)
 
 
+class TrialSeq:
+    """The detection driver seen as an ordered sequence of trials, whether it is written as straight-line
+    code (`if json::input_matches(input.borrow_mut())? { return Ok(Some(Format::Json)) } ...`) or as a loop
+    over a constant table of (Format, fn) pairs."""
+
+    def __init__(self):
+        self.driver = None
+        self.form = None
+        self.order = []  # formats in the order their trials run
+        self.entries = {}  # fmt -> {site, fresh, fresh_detail, rewinds, acc_site, selected, sel_detail}
+        self.stray = []  # (variant, site): a Format chosen without its own trial
+        self.problems = []  # structural surprises (fail closed)
+
+    def before(self, a, b):
+        return a in self.order and b in self.order and self.order.index(a) < self.order.index(b)
+
+
+def _guard_adt(lib):
+    import r_c09
+
+    return r_c09._capture_adts(lib)[1]
+
+
+def _borrow_info(lib, body, call_bb, arg):
+    """(fresh_ok, origin_bb, accessor_body, rewinds): the trial's input comes from its own call of a
+    same-crate accessor returning a Ref, and that accessor goes through the rewinding guard."""
+    tr = trace(body, arg)
+    ok = bool(tr.origin and tr.origin[0] == "call" and (fn_of(tr.origin[2]) or {}).get("local") and "Ref" in body.local_ty(tr.origin[2]["dest"]["l"]))
+    if not ok:
+        return False, None, None, False
+    acc = lib.by_id.get(fn_of(tr.origin[2]).get("resolved") or fn_of(tr.origin[2])["def"])
+    guard = _guard_adt(lib)
+    via_guard = False
+    if acc is not None:
+        for _, _, tt in Super(lib, acc, depth=2).calls():
+            if (fn_of(tt) or {}).get("impl_self_adt") == guard:
+                via_guard = True
+    return True, tr.origin[1], acc, via_guard
+
+
+def trial_sequence(facts):
+    def build():
+        lib = facts.lib
+        trials = trial_functions(facts)
+        ids = {b.id: f for f, b in trials.items()}
+        ts = TrialSeq()
+        # form A: a function calling all four trials directly
+        for b in lib.bodies:
+            called = {(fn_of(t) or {}).get("resolved") or (fn_of(t) or {}).get("def") for _, t in b.calls()}
+            if set(ids) <= called:
+                ts.driver, ts.form = b, "inline"
+                _build_inline(lib, ts, ids)
+                return ts
+        # form B: a constant table of (Format, fn pointer) pairs walked by a loop
+        for cid, cb in lib.const_bodies.items():
+            rows = _table_rows(cb)
+            if rows is None:
+                continue
+            fns = [r[1] for r in rows]
+            if not (set(ids) <= set(fns)):
+                continue
+            users = [b for b in lib.bodies if any(_mentions_const(b, cid))]
+            if len(users) != 1:
+                raise AnchorLost(f"detection table {cid} is used by {len(users)} functions")
+            ts.driver, ts.form = users[0], "table"
+            _build_table(lib, ts, ids, cid, cb, rows)
+            return ts
+        raise AnchorLost("no detection driver found: neither a function calling all four trials nor a constant (Format, fn) table holding them")
+
+    return memo(facts, "trial_sequence", build)
+
+
+def _mentions_const(b, cid):
+    for bi, blk in enumerate(b.blocks):
+        for s in blk["stmts"]:
+            if s["k"] == "assign":
+                rv = s["rv"]
+                ops = [rv.get("op"), rv.get("a"), rv.get("b")] + list(rv.get("ops", []))
+                for o in ops:
+                    if isinstance(o, dict) and o.get("k") == "const" and o.get("def") == cid:
+                        yield (bi, "stmt")
+        t = blk["term"]
+        if t["k"] == "call":
+            for a in t["args"]:
+                if a.get("k") == "const" and a.get("def") == cid:
+                    yield (bi, "call")
+
+
+def _table_rows(cb):
+    """[(variant, fn_def)] of a const initialiser of the form [(Enum::V, f as fn(..)), ...], or None."""
+    arr = [p for _, _, k, p in cb.whole_defs(0) if k == "assign" and p["rv"]["k"] == "aggregate" and p["rv"].get("agg") == "array"]
+    if len(arr) != 1:
+        return None
+    rows = []
+    for op in arr[0]["rv"]["ops"]:
+        tr = trace(cb, op)
+        if not (tr.origin and tr.origin[0] == "agg" and tr.origin[1]["rv"].get("agg") == "tuple" and len(tr.origin[1]["rv"]["ops"]) == 2):
+            return None
+        a, f = tr.origin[1]["rv"]["ops"]
+        ta = trace(cb, a)
+        variant = None
+        if ta.origin and ta.origin[0] == "agg":
+            variant = ta.origin[1]["rv"].get("variant")
+        elif ta.origin and ta.origin[0] == "const":
+            variant = ta.origin[1].get("variant")
+        fdef = None
+        if is_place(f):
+            ds = cb.whole_defs(f["p"]["l"])
+            if len(ds) == 1 and ds[0][2] == "assign" and ds[0][3]["rv"]["k"] == "cast" and ds[0][3]["rv"]["op"].get("k") == "fn":
+                fdef = ds[0][3]["rv"]["op"]["def"]
+        elif f.get("k") == "fn":
+            fdef = f["def"]
+        if variant is None or fdef is None:
+            return None
+        rows.append((variant, fdef))
+    return rows
+
+
+def _format_aggregates(det):
+    out = []
+    for bi in sorted(det.reach()):
+        for s in det.blocks[bi]["stmts"]:
+            if s["k"] == "assign" and s["rv"]["k"] == "aggregate" and s["rv"].get("adt") == "Format":
+                out.append((bi, s["rv"]["variant"]))
+    return out
+
+
+def _build_inline(lib, ts, ids):
+    det = ts.driver
+    trial_calls = {}
+    borrow_blocks = {}
+    for bb, t in det.calls():
+        f = fn_of(t) or {}
+        r = f.get("resolved") or f.get("def")
+        if r not in ids:
+            continue
+        fmt = ids[r]
+        if fmt in trial_calls:
+            ts.problems.append(f"the {fmt} trial is called more than once")
+        trial_calls[fmt] = (bb, t)
+        ok, src_bb, acc, rew = _borrow_info(lib, det, bb, t["args"][0])
+        fresh = ok and src_bb not in borrow_blocks.values()
+        borrow_blocks[fmt] = src_bb
+        ts.entries[fmt] = {"site": site(det, bb), "fresh": fresh, "rewinds": rew, "acc_site": site(acc) if acc else site(det, bb), "selected": False, "sel_site": site(det, bb)}
+    # order: by dominance
+    fmts = list(trial_calls)
+    fmts.sort(key=lambda f_: sum(1 for g in fmts if g != f_ and det.dominates(trial_calls[g][0], trial_calls[f_][0])))
+    total = all(det.dominates(trial_calls[fmts[i]][0], trial_calls[fmts[i + 1]][0]) for i in range(len(fmts) - 1))
+    if not total:
+        ts.problems.append("the trials are not totally ordered by dominance")
+    ts.order = fmts
+    for bi, variant in _format_aggregates(det):
+        v = variant.lower()
+        if v not in trial_calls:
+            ts.stray.append((variant, site(det, bi)))
+            continue
+        tb, tt = trial_calls[v]
+        ok = False
+        for sb in det.reach():
+            sw = det.blocks[sb]["term"]
+            if sw["k"] != "switch" or sw.get("discr_ty") != "bool":
+                continue
+            tr = trace(det, sw["discr"])
+            if tr.origin and tr.origin[0] == "call" and tr.origin[2] is tt and any(st[0] == "downcast" and st[1] == "Continue" for st in tr.steps):
+                if det.edge_dominates(sb, "otherwise", sw["otherwise"], bi):
+                    ok = True
+        if ok:
+            ts.entries[v]["selected"] = True
+        else:
+            ts.stray.append((variant, site(det, bi)))
+        ts.entries[v]["sel_site"] = site(det, bi)
+
+
+def _build_table(lib, ts, ids, cid, cb, rows):
+    det = ts.driver
+    # rows pair each Format with its own trial
+    order = []
+    paired = {}
+    for variant, fdef in rows:
+        fmt = ids.get(fdef)
+        if fmt is None:
+            ts.problems.append(f"table row ({variant}, {fdef}) is not a detection trial")
+            continue
+        if fmt in order:
+            ts.problems.append(f"the {fmt} trial appears twice in the table")
+        order.append(fmt)
+        paired[fmt] = variant.lower() == fmt
+    ts.order = order
+    # the table is walked front to back: into_iter()/iter() on the constant, then Iterator::next on exactly
+    # that iterator type (an adaptor such as rev()/skip() would change the receiver type)
+    nexts = []
+    for bb, t in det.calls():
+        f = fn_of(t) or {}
+        if f.get("trait") == "std::iter::Iterator" and f.get("name") == "next":
+            st = f.get("self_ty", "")
+            tr = trace(det, t["args"][0], passthrough_extra=("std::iter::IntoIterator::into_iter", "::iter"))
+            from_table = False
+            if tr.origin and tr.origin[0] == "const" and tr.origin[1].get("def") == cid:
+                from_table = True
+            if tr.origin and tr.origin[0] == "multi":
+                for _, _, k, p in tr.origin[2]:
+                    if k == "assign" and p["rv"]["k"] == "use":
+                        t2 = trace(det, p["rv"]["op"], passthrough_extra=("std::iter::IntoIterator::into_iter", "::iter"))
+                        if t2.origin and t2.origin[0] == "const" and t2.origin[1].get("def") == cid:
+                            from_table = True
+            if from_table:
+                plain = st.startswith("std::array::IntoIter<") or st.startswith("std::slice::Iter<")
+                nexts.append((bb, t, plain, st))
+    if len(nexts) != 1:
+        ts.problems.append(f"expected one Iterator::next over the detection table, found {len(nexts)}")
+        return
+    nbb, nt, plain, st = nexts[0]
+    if not plain:
+        ts.problems.append(f"the detection table is walked through {st}: the order of trials is not the table order")
+    nres = nt["dest"]["l"]
+
+    def from_item(op, field_index):
+        tr = trace(det, op)
+        if not (tr.origin and tr.origin[0] == "call" and tr.origin[2] is nt):
+            return False
+        fields = [s_[1] for s_ in tr.steps if s_[0] == "field"]
+        return any(s_[0] == "downcast" and s_[1] == "Some" for s_ in tr.steps) and fields[:1] == [str(field_index)] and len(fields) == 2
+
+    # the indirect call through the row's fn pointer
+    calls = []
+    for bb, t in det.calls():
+        fo = t.get("func")
+        if fo and fo.get("k") != "fn" and is_place(fo) and from_item(fo, 1):
+            calls.append((bb, t))
+    if len(calls) != 1:
+        ts.problems.append(f"expected one call through the table's fn pointer, found {len(calls)}")
+        return
+    cbb, ct = calls[0]
+    ok, src_bb, acc, rew = _borrow_info(lib, det, cbb, ct["args"][0])
+    fresh = ok and src_bb is not None and det.dominates(nbb, src_bb) and det.on_cycle(src_bb)
+    # selection: Some(format) with `format` the row's first field, on the true edge of this call's result
+    sel_ok = False
+    sel_site = site(det, cbb)
+    for bi in sorted(det.reach()):
+        for s in det.blocks[bi]["stmts"]:
+            if s["k"] == "assign" and s["rv"]["k"] == "aggregate" and s["rv"].get("variant") == "Some" and "Option<Format>" in s["p"]["ty"]:
+                sel_site = site(det, bi)
+                if not from_item(s["rv"]["ops"][0], 0):
+                    ts.stray.append(("<not the row's format>", site(det, bi)))
+                    continue
+                good = False
+                for sb in det.reach():
+                    sw = det.blocks[sb]["term"]
+                    if sw["k"] != "switch" or sw.get("discr_ty") != "bool":
+                        continue
+                    tr = trace(det, sw["discr"])
+                    if tr.origin and tr.origin[0] == "call" and tr.origin[2] is ct and any(st_[0] == "downcast" and st_[1] == "Continue" for st_ in tr.steps):
+                        if det.edge_dominates(sb, "otherwise", sw["otherwise"], bi):
+                            good = True
+                if good:
+                    sel_ok = True
+                else:
+                    ts.stray.append(("<row format>", site(det, bi)))
+    for bi, variant in _format_aggregates(det):
+        ts.stray.append((variant, site(det, bi)))
+    for fmt in order:
+        ts.entries[fmt] = {"site": site(det, cbb), "fresh": fresh, "rewinds": rew, "acc_site": site(acc) if acc else site(det, cbb),
+                           "selected": sel_ok and paired.get(fmt, False), "sel_site": sel_site if paired.get(fmt, False) else site(cb)}
+
+
 def detect_function(facts):
-    """The detection driver: the local fn that calls all four trials."""
-    trials = trial_functions(facts)
-    ids = {b.id for b in trials.values()}
-    lib = facts.lib
-    for b in lib.bodies:
-        called = {fn_of(t)["def"] for _, t in b.calls() if fn_of(t)}
-        if ids <= called:
-            return b
-    raise AnchorLost("no function calls all four detection trials")
+    """The detection driver (see TrialSeq)."""
+    return trial_sequence(facts).driver
 
 
 def bin_main(facts):
